@@ -23,6 +23,7 @@ var units = map[string]common.UnitFunc{
 	"c07byz":      unitC07byz,
 	"c13sess":     unitC13sess,
 	"c13disc":     unitC13disc,
+	"c13views":    unitC13views,
 	"c12silent":   unitC12silent,
 	"c15ctl":      unitC15ctl,
 }
